@@ -215,6 +215,30 @@ impl Check for C10 {
                     }
                 }
             }
+            if shard == 0 {
+                // large outputs (the TOML trial of a reader stops at 2 MiB by design, a
+                // slice has no such limit) and strings with characters TOML writes raw
+                for (name, doc) in [
+                    ("large_1.5MiB", Val::Map(vec![(Val::s("k"), Val::Str("v".repeat(1_500_000)))])),
+                    ("large_2.2MiB", Val::Map(vec![(Val::s("k"), Val::Str("v".repeat(2_200_000)))])),
+                    ("c1_controls", Val::Map(vec![(Val::s("a"), Val::s("x\u{80}y\u{9f}z")), (Val::s("b\u{fffe}"), Val::s("\u{ffff}"))])),
+                ] {
+                    for f in FORMATS {
+                        for mode in [Mode::Slice, Mode::Reader(crate::sio::Sched::Fixed(8192))] {
+                            // a TOML reader of 2 MiB or more is outside detection by design
+                            if f == Fmt::Toml && name == "large_2.2MiB" && mode != Mode::Slice {
+                                continue;
+                            }
+                            let c = Case { docs: vec![doc.clone()], a: Fmt::Msgpack, f, style: Style::canonical(), mode: mode.clone() };
+                            rec.class(&format!("sizes:{}", name));
+                            if let Err(m) = check_case(&c, rec) {
+                                rec.fail(format!("{}: {}", name, m), c.to_json("gen"));
+                                return;
+                            }
+                        }
+                    }
+                }
+            }
             return;
         }
         run_prop(rec, seed, unit.cases, case_strategy(), |c| c.to_json("gen"), check_case);
